@@ -124,25 +124,29 @@ def r4(ctx, facts, model):
                 if d[0] == "agg":
                     rv = b.blocks[d[1]]["stmts"][d[2]]["rv"]
                     if rv.get("adt") in RANGE_EXCL | RANGE_INCL and rv["ops"]:
-                        bounds.append((rv["adt"], b.operand_origin(rv["ops"][-1]), b.blocks[d[1]]["stmts"][d[2]].get("line")))
+                        bounds.append((rv["adt"], b.operand_origin(rv["ops"][-1]), b.blocks[d[1]]["stmts"][d[2]].get("line"), d))
                 elif d[0] == "call":
                     c = b.term(d[1])["callee"]
                     if c.get("name") in ("take", "split_at", "split_at_mut", "get", "take_while") and len(b.term(d[1])["args"]) >= 2:
                         a1 = b.term(d[1])["args"][1]
                         if isinstance(a1, dict) and a1.get("ty") == "usize":
-                            bounds.append(("call " + c["name"], b.operand_origin(a1), b.term(d[1])["line"]))
+                            bounds.append(("call " + c["name"], b.operand_origin(a1), b.term(d[1])["line"], d))
             if not bounds:
                 ok = not any(rbb in b.reachable(t) for t in rej)
                 ctx.ob("C17-R4", key + " (whole batch) unreachable after a rejected element", ok, b.loc(rbb),
                        "" if ok else "the whole batch is pushed onto the free list on a path where an element was rejected: indices of entities that were "
                        "not killed (still alive, or already free) get recycled and are handed out a second time")
                 continue
-            for kind, e, line in bounds:
+            for kind, e, line, bdep in bounds:
                 ok = False
                 why = ""
                 if kind in RANGE_INCL:
                     why = "inclusive range bound: the rejected element itself is recycled"
                 elif e == counter:
+                    ok = True
+                elif counted_bound(b, bdep, rbb):
+                    # the bound is a counter in step with the loop over the batch (what `iter().position(..)` is rewritten to), or - where the
+                    # loop ran to exhaustion - the batch's full length (`position(..).unwrap_or(batch.len())`)
                     ok = True
                 elif e[0] in ("phi",) or (e[0] == "op"):
                     # a count: every non-constant assignment must come after the death of the element within the iteration
@@ -166,3 +170,49 @@ def r4(ctx, facts, model):
                     ctx.ob("C17-R4", key + " prefix bound counts completed kills", "undetermined", b.loc(line=line), why)
                     continue
                 ctx.ob("C17-R4", key + " prefix bound counts completed kills", ok, b.loc(line=line), why)
+
+
+def counted_bound(b, dep, use_bb):
+    """dep: the range aggregate / slicing call the recycled prefix is cut with.  True if its bound operand is, on every definition that
+    reaches it, a counter in step with a loop over the batch parameter or the length of the batch."""
+    from .c02 import batch_loops
+    if dep[0] == "agg":
+        st = b.blocks[dep[1]]["stmts"][dep[2]]
+        op, at = st["rv"]["ops"][-1], (dep[1], dep[2])
+    elif dep[0] == "call":
+        t = b.term(dep[1])
+        if len(t["args"]) < 2:
+            return False
+        op, at = t["args"][1], (dep[1], len(b.blocks[dep[1]]["stmts"]))
+    else:
+        return False
+    loops = batch_loops(b)
+    if not loops:
+        return False
+
+    def ok_operand(o, at_, depth=0):
+        if depth > 4:
+            return False
+        root = b.copy_root(o, at_)
+        if root is None:
+            org = b.operand_origin(o, at=at_)
+            return org[0] == "call" and b.term(org[1])["callee"].get("name") == "len" and any(r[0] == "param" and r[1] >= 2 for r in b.roots(b.arg_origin(org[1], 0)))
+        local, pt = root
+        for nbb, some_t in loops:
+            if b.counts_iterations(local, nbb, some_t, [use_bb])[0]:
+                return True
+        rd, entry = b.reaching_defs(local, pt)
+        if entry or not rd:
+            return False
+        for bb_, idx_ in rd:
+            if idx_ < 0:
+                tt = b.term(bb_)      # defined by a call: only `batch.len()` is accepted
+                if not (tt["k"] == "call" and tt["callee"].get("name") == "len" and any(r[0] == "param" and r[1] >= 2 for r in b.roots(b.arg_origin(bb_, 0)))):
+                    return False
+                continue
+            st_ = b.blocks[bb_]["stmts"][idx_]
+            rv_ = st_["rv"]
+            if rv_["k"] != "use" or not ok_operand(rv_["ops"][0], (bb_, idx_), depth + 1):
+                return False
+        return True
+    return ok_operand(op, at)
